@@ -1692,6 +1692,89 @@ def comp_memcopy(prop, tier, comp, work):
 
 
 # --------------------------------------------------------------------------------------------
+# R-AXISNORM (C03/C04/C08/C15): NumPy axes may be negative.  Whenever a loop counter / dimension position is compared
+# for equality with an axis-valued expression, that expression must be a *normalised* axis: a local initialised from
+# normalize_axis(...) (directly or through a helper lambda), a local named normalized_*, or the function must handle the
+# sign itself ((axis < 0) test).  A raw parameter or member compared with a counter silently never matches for axis=-1.
+# Scope: anchor files of the property; reviewed exceptions (callers that normalise) in tools/axisnorm_tables.json.
+# --------------------------------------------------------------------------------------------
+def rule_axisnorm(rows, prop):
+    tbl = load_table("axisnorm_tables.json")
+    anchors = anchor_files(prop)
+    findings, samples, seen = [], [], set()
+    fns = [r for r in rows if "fn" in r]
+    by_line = {(r["file"], r["line"]): r for r in fns}
+    n = 0
+    for r in fns:
+        rf = relfile(r["file"])
+        if anchors and not any(rf == a or (a.endswith("/") and rf.startswith(a)) for a in anchors):
+            continue
+        locs = {f["a"]: f["b"] for f in r["facts"] if f["k"] == "local"}
+        alltxt = " ".join((f.get("a", "") + " " + f.get("b", "") + " " + f.get("c", "")) for f in r["facts"])
+        owner = r["fn"].split("(")[0].rstrip(":") if (r.get("lambda") or "(anonymous class)" in r["fn"]) else r["fn"]
+        for f in r["facts"]:
+            for field in ("a", "b", "c"):
+                v = f.get(field, "")
+                if "axis" not in v or "==" not in v:
+                    continue
+                for m in re.finditer(r"\(([^()]*) == ([^()]*)\)", v):
+                    for side in (m.group(1), m.group(2)):
+                        for nme in re.findall(r"(?:this\.|[$%])\w*axis\w*", side):
+                            other = m.group(2) if side is m.group(1) else m.group(1)
+                            if not re.search(r"[$%]\w+", other) or "axis" in other and "==" in other:
+                                continue
+                            key = (rf, owner.split("::")[-1], nme)
+                            if key in seen:
+                                continue
+                            seen.add(key); n += 1
+                            ok = "normaliz" in nme
+                            if nme.startswith("%") and not ok:
+                                # locals of this function and, for a lambda, of the enclosing function (captured by reference)
+                                scope = dict(locs)
+                                if r.get("lambda"):
+                                    for q in fns:
+                                        if q["fn"] == owner and q["file"] == r["file"] and not q.get("lambda"):
+                                            for x in q["facts"]:
+                                                if x["k"] == "local":
+                                                    scope.setdefault(x["a"], x["b"])
+                                cur, depth = nme[1:], 0
+                                while cur in scope and depth < 4 and not ok:
+                                    init = scope[cur]; depth += 1
+                                    if "normalize_axis" in init or re.search(r">= 0\) \?|< 0\) \?", init):
+                                        ok = True; break
+                                    ml = re.fullmatch(r"lambda@(\d+)\(\)", init)
+                                    if ml and (r["file"], int(ml.group(1))) in by_line:
+                                        ok = any("normalize_axis" in x["a"] + x["b"] for x in by_line[(r["file"], int(ml.group(1)))]["facts"] if x["k"] in ("return", "local", "call"))
+                                        break
+                                    mm = re.fullmatch(r"\(\* %(\w+)\)|unwrap\(%(\w+)\)|%(\w+)", init)
+                                    if not mm:
+                                        break
+                                    cur = [g_ for g_ in mm.groups() if g_][0]
+                            if not ok and re.search(r"\(" + re.escape(nme) + r" < 0\)", alltxt):
+                                ok = True
+                            ek = "%s:%s:%s" % (rf, owner.split("::")[-1], nme)
+                            if not ok and ek in tbl["exempt"]:
+                                ok = True
+                            if not ok:
+                                findings.append(finding("R-AXISNORM", prop, r, m.group(0), "position compared with the raw axis %s: a negative axis (counting from the end, as NumPy allows) never matches, the operation is silently applied to no axis" % nme, f.get("line")))
+                            elif len(samples) < 3:
+                                samples.append("R-AXISNORM %s %s: %s" % (rf.split("/")[-1], owner.split("::")[-1], m.group(0)))
+    return findings, n, samples
+
+
+def comp_axisnorm(prop, tier, comp, work):
+    t0 = time.time()
+    tu, nn = gen_umbrella(["nmtools/array/view", "nmtools/array/index"], work, "umb_vi2.cpp")
+    rows, err, cmd = run_nmlint(tu, filters=["include/nmtools/array/view/", "include/nmtools/array/index/"])
+    out = dict(broken=[], units=nn, functions=len(rows), cmd=cmd)
+    if err:
+        out["broken"].append(err); return out
+    f, inst, samples = rule_axisnorm(rows, prop)
+    out.update(findings=f, instances={"R-AXISNORM": inst}, evaluations=inst, distinct_nontrivial=inst - len(f), samples=samples, wall_s=round(time.time() - t0, 2))
+    return out
+
+
+# --------------------------------------------------------------------------------------------
 # driver
 # --------------------------------------------------------------------------------------------
 def run(prop, tier, spec, jobs=16):
@@ -1731,4 +1814,4 @@ def comp_fwd_array(prop, tier, comp, work):
     return out
 
 
-RULES = {"R-FWD.array": comp_fwd_array, "R-FWD.functional": comp_fwd_functional, "R-UFUNC": comp_ufunc, "R-KSIB": comp_ksib, "R-SIMD": comp_simd, "R-CONSTBRANCH": comp_constbranch, "R-TRAITPROV": comp_traitprov, "R-MAYBE-DIV": comp_maybe_div, "R-OWN": comp_own, "R-EVAL": comp_eval, "R-EQSHAPE": comp_eqshape, "R-PAIR": comp_pair, "R-FOLD": comp_fold, "R-MEMCOPY": comp_memcopy}
+RULES = {"R-FWD.array": comp_fwd_array, "R-FWD.functional": comp_fwd_functional, "R-UFUNC": comp_ufunc, "R-KSIB": comp_ksib, "R-SIMD": comp_simd, "R-CONSTBRANCH": comp_constbranch, "R-TRAITPROV": comp_traitprov, "R-MAYBE-DIV": comp_maybe_div, "R-OWN": comp_own, "R-EVAL": comp_eval, "R-EQSHAPE": comp_eqshape, "R-PAIR": comp_pair, "R-FOLD": comp_fold, "R-MEMCOPY": comp_memcopy, "R-AXISNORM": comp_axisnorm}
